@@ -13,9 +13,12 @@ use serde_json::{json, Value};
 #[derive(Clone, Debug)]
 pub enum Intent {
     Provide { pair: usize, assets: [Asset; 2], receiver: String },
-    Withdraw { pair: usize, amount: u128, holder: String },
+    /// `holder` sends the LP tokens to the pair and is paid; `owner` is whose LP tokens they are (the same
+    /// account unless the holder spends an allowance through `SendFrom`)
+    Withdraw { pair: usize, amount: u128, holder: String, owner: String },
     /// a swap attempt at a pair; `delivered` = what the trader actually hands over in this tx
-    Swap { pair: usize, hook: bool, offer: Asset, delivered: Vec<(AssetInfo, u128)>, receiver: String },
+    /// (`payer` = whose balance the delivered asset leaves: the sender, or the owner behind a `SendFrom`)
+    Swap { pair: usize, hook: bool, offer: Asset, delivered: Vec<(AssetInfo, u128)>, receiver: String, payer: String },
     /// `delivered` = the input of the route; `extras` = further coins attached to the router call (they sit in
     /// the router while the route runs)
     Route { ops: Vec<SwapOperation>, delivered: (AssetInfo, u128), extras: Vec<(AssetInfo, u128)>, minimum: Option<u128>, receiver: String },
@@ -42,10 +45,26 @@ pub fn classify(w: &World, st: &Step) -> Intent {
     match &st.call {
         Call::Pair { pair, msg } => match msg {
             PairExec::ProvideLiquidity { assets, receiver, .. } => Intent::Provide { pair: *pair, assets: assets.clone(), receiver: receiver.clone().unwrap_or_else(|| st.sender.clone()) },
-            PairExec::Swap { offer_asset, to, .. } => Intent::Swap { pair: *pair, hook: false, offer: offer_asset.clone(), delivered: funds, receiver: to.clone().unwrap_or_else(|| st.sender.clone()) },
+            PairExec::Swap { offer_asset, to, .. } => Intent::Swap { pair: *pair, hook: false, offer: offer_asset.clone(), delivered: funds, receiver: to.clone().unwrap_or_else(|| st.sender.clone()), payer: st.sender.clone() },
             _ => Intent::Other,
         },
         Call::Cw20 { token, msg } => match msg {
+            // the same hooks delivered by a spender out of somebody else's balance
+            Cw20ExecuteMsg::SendFrom { owner, contract, amount, msg } => match pair_by_addr(w, contract) {
+                Some(p) => match from_binary::<PairHook>(msg) {
+                    Ok(PairHook::Swap { offer_asset, to, .. }) => Intent::Swap {
+                        pair: p,
+                        hook: true,
+                        offer: offer_asset,
+                        delivered: vec![(AssetInfo::Token { contract_addr: token.clone() }, amount.u128())],
+                        receiver: to.unwrap_or_else(|| st.sender.clone()),
+                        payer: owner.clone(),
+                    },
+                    Ok(PairHook::WithdrawLiquidity {}) if w.pairs[p].lp == *token => Intent::Withdraw { pair: p, amount: amount.u128(), holder: st.sender.clone(), owner: owner.clone() },
+                    _ => Intent::Other,
+                },
+                None => Intent::Other,
+            },
             Cw20ExecuteMsg::Send { contract, amount, msg } => {
                 if let Some(p) = pair_by_addr(w, contract) {
                     match from_binary::<PairHook>(msg) {
@@ -55,8 +74,9 @@ pub fn classify(w: &World, st: &Step) -> Intent {
                             offer: offer_asset,
                             delivered: vec![(AssetInfo::Token { contract_addr: token.clone() }, amount.u128())],
                             receiver: to.unwrap_or_else(|| st.sender.clone()),
+                            payer: st.sender.clone(),
                         },
-                        Ok(PairHook::WithdrawLiquidity {}) if w.pairs[p].lp == *token => Intent::Withdraw { pair: p, amount: amount.u128(), holder: st.sender.clone() },
+                        Ok(PairHook::WithdrawLiquidity {}) if w.pairs[p].lp == *token => Intent::Withdraw { pair: p, amount: amount.u128(), holder: st.sender.clone(), owner: st.sender.clone() },
                         _ => Intent::Other,
                     }
                 } else if *contract == w.router.as_str() {
@@ -113,13 +133,14 @@ pub fn pool_in(w: &World, snap: &Snapshot, p: usize) -> (u128, u128, u128) {
 pub fn step_summary(w: &World, st: &Step, out: &Outcome) -> Value {
     let what = match classify(w, st) {
         Intent::Provide { pair, assets, receiver } => format!("provide pair{} [{} , {}] receiver {}", pair, assets[0], assets[1], receiver),
-        Intent::Withdraw { pair, amount, .. } => format!("withdraw pair{} {} LP", pair, amount),
-        Intent::Swap { pair, hook, offer, delivered, receiver } => format!(
-            "swap pair{} via {} names {} delivers [{}] to {}",
+        Intent::Withdraw { pair, amount, holder, owner } => format!("withdraw pair{} {} LP{}", pair, amount, if holder != owner { format!(" (SendFrom: LP tokens of {})", owner) } else { String::new() }),
+        Intent::Swap { pair, hook, offer, delivered, receiver, payer } => format!(
+            "swap pair{} via {} names {} delivers [{}]{} to {}",
             pair,
             if hook { "cw20-hook" } else { "execute" },
             offer,
             delivered.iter().map(|(a, v)| format!("{}{}", v, a)).collect::<Vec<_>>().join(","),
+            if payer != st.sender { format!(" (SendFrom: out of {}'s balance)", payer) } else { String::new() },
             receiver
         ),
         Intent::Route { ops, delivered, extras, minimum, receiver } => format!(
